@@ -427,10 +427,15 @@ def check_const(case):
             viol.append((key, 'non-public constant %s (file %s) was emitted: %r' % (ident, f, consts[0].attrib)))
         return viol, must, unspec, ('nonpublic', len(consts))
     must += 1
-    mine = [k for k in consts if k.get('c:type') == ident]
+    # gir-1.2.rnc lets a constant carry its C name in c:type or in c:identifier
+    mine = [k for k in consts if ident in (k.get('c:type'), k.get('c:identifier'))]
+    if not mine and len(consts) == 1:
+        # emitted, but not under its C name: report that and keep checking type and value
+        viol.append(('const-cname', 'constant %s emitted without its C name: %r' % (ident, consts[0].attrib)))
+        mine = consts
     if len(mine) != 1 or len(consts) != 1:
         viol.append(('const-missing:%s' % kind if not mine else 'const-duplicated',
-                     'expected one <constant c:type=%r>, found %r (messages %r)'
+                     'expected one <constant> carrying the C name %r, found %r (messages %r)'
                      % (ident, [k.attrib for k in consts], [r['text'] for r in res.records][:2])))
         return viol, must, unspec, ('count', len(consts))
     el = mine[0]
@@ -586,7 +591,7 @@ def _work_enum(chunk):
             r = check_enum(case)
             part.add(transitions=1)          # generation step: choice of the private mask
             _account(part, case, r, 'e%d:%s:%d' % (cfg, ','.join(map(str, seq)), mask))
-            if mask == 0 and (len(part.samples) < 3) and n >= 2 and (sum(seq) % 5 == 0):
+            if mask == 0 and not part.samples and n >= 2 and (sum(seq) % 5 == 0):
                 part.sample(render(case))
 
     def rec(seq):
@@ -782,6 +787,13 @@ def run(ctx):
                     'enum_values': len(ENUM_VALUES_T if thorough else ENUM_VALUES), 'configs': len(CONFIGS),
                     'const_values': len(int_value_menu(ctx.tier)), 'alias_depth': 2,
                     'strings': len(STRINGS), 'doubles': len(DOUBLES_MUST) + len(DOUBLES_UNSPEC)})
+    # ---- constants: one chunk per type spelling
+    cchunks = [(ctx.tier, ('type', s, False, False)) for s in SPELLINGS_TYPEDEF]
+    cchunks += [(ctx.tier, ('type', s, True, False)) for s in SPELLINGS_BASIC + SPELLINGS_GCONST]
+    cchunks += [(ctx.tier, ('type', s, False, True)) for s in sorted(FOREIGN)]
+    cchunks.append((ctx.tier, ('misc',)))
+    for r in pmap(_work_const, rotate(cchunks, ctx.seed)):
+        col.merge(r)
     # ---- enumerations: chunks = root, each length-1 node, and the subtree below each length-2 node
     chunks = []
     common = (pool, deep_pool, maskfull, fulllen, deeplen)
@@ -796,13 +808,6 @@ def run(ctx):
         col.merge(r)
     values = ENUM_VALUES_T if thorough else ENUM_VALUES
     for r in pmap(_work_enum_values, rotate([(ctx.tier, [v]) for v in values], ctx.seed)):
-        col.merge(r)
-    # ---- constants: one chunk per type spelling
-    cchunks = [(ctx.tier, ('type', s, False, False)) for s in SPELLINGS_TYPEDEF]
-    cchunks += [(ctx.tier, ('type', s, True, False)) for s in SPELLINGS_BASIC + SPELLINGS_GCONST]
-    cchunks += [(ctx.tier, ('type', s, False, True)) for s in sorted(FOREIGN)]
-    cchunks.append((ctx.tier, ('misc',)))
-    for r in pmap(_work_const, rotate(cchunks, ctx.seed)):
         col.merge(r)
     col.flush()
     ctx.assumptions += [
